@@ -15,7 +15,17 @@
     [variant] selects the order of operations of two historical versions of the code:
     [v_hdr_first] = [NpyArray.truncate] writes and flushes the shorter header before cutting the
     file (commit 512d83b), [v_set_flush] = [NpyArray.__setitem__] flushes a pending header before
-    writing through the memmap (commit a488af9).  [current] is the code as it is now.           *)
+    writing through the memmap (commit a488af9); [v_set_hdr] (only read when [v_set_flush] is off)
+    = [__setitem__] hands the pending header to the file object ([_write_header_data]) without
+    flushing it, an order of operations that was never in the code and is refuted in
+    Properties/C06.v: whether it is safe depends on whether an earlier *read* already created the
+    memmap.  [current] is the code as it is now.
+
+    Queries are operations of a history like the others: [Read i] ([store[i]]) leaves the content
+    alone but creates the memmap when there is none ([fid.seek(0, 2)] inside [numpy.memmap]: commits
+    everything pending, and later writes through [__setitem__] no longer pass through that seek);
+    [Query] ([len(store)], [i in store], [len(store.array)]) touches neither the file nor the
+    object.  Kill points are numbered over *all* low-level operations, memmap writes included.   *)
 From Coq Require Import List NArith Arith Bool.
 Import ListNotations.
 
@@ -111,10 +121,12 @@ Record mem := {
 
 Definition fresh_mem := {| m_init := false; m_closed := false; m_rows := 0; m_pend := None; m_mmap := false; m_nb := 0 |}.
 
-Record variant := { v_hdr_first : bool; v_set_flush : bool }.
-Definition current := {| v_hdr_first := true; v_set_flush := true |}.
-Definition old_truncate := {| v_hdr_first := false; v_set_flush := true |}.
-Definition old_setitem := {| v_hdr_first := true; v_set_flush := false |}.
+Record variant := { v_hdr_first : bool; v_set_flush : bool; v_set_hdr : bool }.
+Definition current := {| v_hdr_first := true; v_set_flush := true; v_set_hdr := false |}.
+Definition old_truncate := {| v_hdr_first := false; v_set_flush := true; v_set_hdr := false |}.
+Definition old_setitem := {| v_hdr_first := true; v_set_flush := false; v_set_hdr := false |}.
+(** hypothetical: the pending header is written into the file object's buffer, not flushed *)
+Definition unflushed_setitem := {| v_hdr_first := true; v_set_flush := false; v_set_hdr := true |}.
 
 Definition initialized (m : mem) : bool := m_init m && negb (m_closed m).
 
@@ -167,7 +179,9 @@ Definition arr_memmap (m : mem) : option (list lop * mem) :=
 Definition arr_setitem (v : variant) (m : mem) (r : nat) (b : batch) : option (list lop * mem) :=
   let '(l0, m0, e0) :=
     match m_pend m with
-    | Some _ => if v_set_flush v then arr_flush m else ([], m, false)
+    | Some _ => if v_set_flush v then arr_flush m
+                else if v_set_hdr v then (let '(l, m') := arr_write_header m in (l, m', false))
+                else ([], m, false)
     | None => ([], m, false)
     end in
   if e0 then None else
@@ -195,7 +209,8 @@ Inductive hop :=
 | Pickle                                     (* store = pickle.loads(pickle.dumps(store)) (old object dropped) *)
 | Open (k : nat)                             (* store.close(); store = NpyStore(filename, batch_size, n_batches=k):
                                                 a store that exposes the first k batches of the file *)
-| Read (i : nat).                            (* store[i] *)
+| Read (i : nat)                             (* store[i]: creates the memmap if there is none *)
+| Query.                                     (* len(store), i in store, len(store.array): no file operation, no state change *)
 
 Definition err (m : mem) : list lop * mem * bool := ([], m, true).
 
@@ -232,6 +247,7 @@ Definition expand (v : variant) (bs : nat) (m : mem) (op : hop) : list lop * mem
   | Flush => arr_flush m
   | Close => let '(l, m1) := arr_close m in (l, m1, false)
   | Read _ => st_read m
+  | Query => ([], m, false)
   | Reopen | Pickle | Open _ => ([], m, false)      (* two-phase, see [hstep] *)
   end.
 
@@ -374,7 +390,7 @@ Record case := {
   c_obs : list obs;                   (* observing run: after each operation *)
   c_trace_obs : list (list lop);      (* observing run: low-level operations of each op and of the reads that follow it *)
   c_oracle : list nat;                (* CPython's buffer behaviour for the plain run, per low-level operation *)
-  c_crash : list (nat * option (list row))   (* kill before low-level operation number k (k done): numpy.load of the file *)
+  c_crash : list (nat * option (list row))   (* kill on entering low-level operation number k (k done; memmap writes are numbered too): numpy.load of the file *)
 }.
 
 Definition eqb_row (a b : row) : bool := if list_eq_dec N.eq_dec a b then true else false.
@@ -459,20 +475,13 @@ Fixpoint agree_obs (ops : list hop) (mo : list (list lop * bool * (nat * option 
 Definition all_lops (v : variant) (bs : nat) (o : oracle) (ops : list hop) : list lop :=
   LOpen true :: concat (map fst (run_trace v bs o 1 fresh_mem empty_file ops)).
 
-(** The interposer numbers the operations on the file object; memmap writes are invisible to it.
-    A kill "before counted operation number k" happens after every low-level operation that
-    precedes it, memmap writes included. *)
-Definition counted (op : lop) : bool := match op with LMemWrite _ _ => false | _ => true end.
-
-Fixpoint take_counted (k : nat) (l : list lop) : list lop :=
-  match l with
-  | [] => []
-  | op :: r => if counted op then match k with O => [] | S k' => op :: take_counted k' r end
-               else op :: take_counted k r
-  end.
-
+(** The interposer numbers every low-level operation: those on the file object and the writes
+    through the memmap (the mapping handed to [NpyArray] ticks the same counter before it stores).
+    A kill "at operation number k" happens on entering it: operations [0..k) are done, so every
+    state the file goes through is a kill point, the one right after a memmap write and the one
+    at the end of a history that neither flushes nor closes included ([k] = total). *)
 Definition disk_at (v : variant) (bs : nat) (o : oracle) (ops : list hop) (k : nat) : disk :=
-  f_disk (lexec o 0 (take_counted k (all_lops v bs o ops)) empty_file).
+  f_disk (lexec o 0 (firstn k (all_lops v bs o ops)) empty_file).
 
 Definition agree (c : case) : bool :=
   let v := c_variant c in
@@ -524,14 +533,12 @@ Fixpoint tag_one (t : nat) (l : list lop) : list (nat * bool * lop) :=
 Fixpoint tag (t : nat) (tr : list (list lop)) : list (nat * bool * lop) :=
   match tr with [] => [] | l :: r => tag_one t l ++ tag (S t) r end.
 
-(** the last low-level operation executed before a kill at counted operation [k]: index of the
-    store operation in progress, and whether it is complete *)
+(** the last low-level operation executed before a kill at operation [k]: index of the store
+    operation in progress, and whether it is complete *)
 Fixpoint last_exec (k : nat) (l : list (nat * bool * lop)) (acc : option (nat * bool)) : option (nat * bool) :=
   match l with
   | [] => acc
-  | (t, d, op) :: r =>
-      if counted op then match k with O => acc | S k' => last_exec k' r (Some (t, d)) end
-      else last_exec k r (Some (t, d))
+  | (t, d, op) :: r => match k with O => acc | S k' => last_exec k' r (Some (t, d)) end
   end.
 
 (** the last flush-like operation that has completed when the kill happens, provided the store was
@@ -558,7 +565,7 @@ Fixpoint spec_errs (l : list batch) (ops : list hop) (errs : list bool) : list (
 (** kill after [k] low-level operations: the file loads to the content after one of the
     operations [f..t], [f] the last completed flush, [t] the operation in progress *)
 Definition ok_crash1 (ops : list hop) (errs : list bool) (cont : list (list batch)) (tg : list (nat * bool * lop)) (kc : nat * option (list row)) : bool :=
-  match last_exec (fst kc - 1) tg None with       (* the opening LOpen is counted operation 0 *)
+  match last_exec (fst kc - 1) tg None with       (* the opening LOpen is operation 0 *)
   | None => true
   | Some (t, done) =>
       match last_flush ops errs t done 0 false None with
